@@ -161,13 +161,15 @@ def run(ctx):
                          "getB/getH(sources, sensors[, pixel_agg]) on real classes with generic rotations vs getB(sources, "
                          "explicit global pixel positions) rotated back by hand and reduced with the named numpy function")
     ctx.trusted += [
+        "translator translate/gen_l2arith.py (python expressions of the level-2 data flow -> deep embedding pyexp)",
         "hand model coq/Model/Level2Model.v of getBH_level2 (poso construction, pix_inds slices, the three "
         "back-rotation branches with flags taken before tiling, handedness flip, both pixel-shaping paths), tied by "
         "the exact correspondence; check_format_input_observers / Sensor setters are exercised, not modelled",
         "the aggregator is an abstract function list V -> V in the theorems (numpy's reductions are not modelled); "
         "the quaternion comparison behind the fast-path flags is only assumed sound (equal => same rotation)",
     ]
-    built = ctx.build_props()
+    ok = ctx.regen(["GenL2Arith"])
+    built = ctx.build_props() and ok
     if ctx.tier == "thorough" and built:
         ctx.coqchk("MV.Props.C04")
 
